@@ -49,3 +49,595 @@ Proof.
   destruct a as [|[|[| | |s|] [|]]], b as [|[|[| | |s'|] [|]]]; cbn; try discriminate. intros _ _.
   rewrite andb_true_r. reflexivity.
 Qed.
+
+(* ================================================================ the allowed / excluded flag algebra *)
+Section FlagsSpec.
+  Context {K : Type}.
+  Variable eqb : K -> K -> bool.
+  Hypothesis eqb_spec : forall a b, eqb a b = true <-> a = b.
+  Variable is_sub : K -> K -> res bool.
+  Variable leb : K -> K -> bool.
+  Variable lit : K -> bool.
+  Hypothesis is_sub_lit : forall a b, lit a = true -> lit b = true -> is_sub a b = Ok (eqb a b).
+  Variable mk : bool -> list K -> proper.
+  Variable t : stag.
+
+  Notation all_lit l := (forallb lit l = true).
+  Notation lm := (lits_mem eqb).
+
+  Lemma existsb_In_bool x l : existsb (eqb x) l = true <-> In x l.
+  Proof. exact (existsb_eqb_In eqb eqb_spec x l). Qed.
+
+  Lemma bool_of_iff (a b : bool) : (a = true <-> b = true) -> a = b.
+  Proof. destruct a, b; intros [H1 H2]; try reflexivity; [symmetry; apply H1; reflexivity|apply H2; reflexivity]. Qed.
+
+  Lemma lits_intersect_spec a1 v1 a2 v2 :
+    all_lit v1 -> all_lit v2 ->
+    exists a v, lits_intersect is_sub eqb leb mk t a1 v1 a2 v2 = Ok (lit_subtype mk t a v) /\ all_lit v /\
+                forall x, lm a v x = lm a1 v1 x && lm a2 v2 x.
+  Proof.
+    intros H1 H2. unfold lits_intersect, lits_mem.
+    destruct a1, a2.
+    - destruct (sub_vec_intersect_lit eqb eqb_spec is_sub leb lit is_sub_lit v1 v2 H1 H2) as (v & -> & Hl & Hv).
+      exists true, v. repeat split; auto. intros x. apply bool_of_iff.
+      rewrite andb_true_iff, !existsb_In_bool. apply Hv.
+    - destruct (sub_vec_diff_lit eqb eqb_spec is_sub leb lit is_sub_lit v1 v2 H1 H2) as (v & -> & Hl & Hv).
+      exists true, v. repeat split; auto. intros x. apply bool_of_iff.
+      rewrite andb_true_iff, negb_true_iff, <- not_true_iff_false, !existsb_In_bool. apply Hv.
+    - destruct (sub_vec_diff_lit eqb eqb_spec is_sub leb lit is_sub_lit v2 v1 H2 H1) as (v & -> & Hl & Hv).
+      exists true, v. repeat split; auto. intros x. apply bool_of_iff.
+      rewrite andb_true_iff, negb_true_iff, <- not_true_iff_false, !existsb_In_bool. rewrite Hv. tauto.
+    - destruct (sub_vec_union_lit eqb eqb_spec is_sub leb lit is_sub_lit v1 v2 H1 H2) as (v & -> & Hl & Hv).
+      exists false, v. repeat split; auto. intros x. apply bool_of_iff.
+      rewrite andb_true_iff, !negb_true_iff, <- !not_true_iff_false, !existsb_In_bool. rewrite Hv. tauto.
+  Qed.
+
+  Lemma lits_union_spec a1 v1 a2 v2 :
+    all_lit v1 -> all_lit v2 ->
+    exists a v, lits_union is_sub eqb leb mk t a1 v1 a2 v2 = Ok (lit_subtype mk t a v) /\ all_lit v /\
+                forall x, lm a v x = lm a1 v1 x || lm a2 v2 x.
+  Proof.
+    intros H1 H2. unfold lits_union, lits_mem.
+    destruct a1, a2.
+    - destruct (sub_vec_union_lit eqb eqb_spec is_sub leb lit is_sub_lit v1 v2 H1 H2) as (v & -> & Hl & Hv).
+      exists true, v. repeat split; auto. intros x. apply bool_of_iff.
+      rewrite orb_true_iff, !existsb_In_bool. apply Hv.
+    - destruct (sub_vec_diff_lit eqb eqb_spec is_sub leb lit is_sub_lit v2 v1 H2 H1) as (v & -> & Hl & Hv).
+      exists false, v. repeat split; auto. intros x. apply bool_of_iff.
+      rewrite orb_true_iff, !negb_true_iff, <- !not_true_iff_false, !existsb_In_bool. rewrite Hv.
+      destruct (in_dec (fun a b => match eqb a b as r return (eqb a b = r -> {a = b} + {a <> b}) with
+                                   | true => fun E => left (proj1 (eqb_spec a b) E)
+                                   | false => fun E => right (fun H => eq_ind true (fun r => r = false -> False) (fun H0 => Bool.diff_true_false H0) _ (eq_sym (proj2 (eqb_spec a b) H)) E)
+                                   end eq_refl) x v1); tauto.
+    - destruct (sub_vec_diff_lit eqb eqb_spec is_sub leb lit is_sub_lit v1 v2 H1 H2) as (v & -> & Hl & Hv).
+      exists false, v. repeat split; auto. intros x. apply bool_of_iff.
+      rewrite orb_true_iff, !negb_true_iff, <- !not_true_iff_false, !existsb_In_bool. rewrite Hv.
+      destruct (existsb (eqb x) v2) eqn:E; [apply existsb_In_bool in E; tauto|].
+      assert (~ In x v2) by (intros Hin; apply existsb_In_bool in Hin; congruence). tauto.
+    - destruct (sub_vec_intersect_lit eqb eqb_spec is_sub leb lit is_sub_lit v1 v2 H1 H2) as (v & -> & Hl & Hv).
+      exists false, v. repeat split; auto. intros x. apply bool_of_iff.
+      rewrite orb_true_iff, !negb_true_iff, <- !not_true_iff_false, !existsb_In_bool. rewrite Hv.
+      destruct (existsb (eqb x) v1) eqn:E; [apply existsb_In_bool in E|]; [|assert (~ In x v1) by (intros Hin; apply existsb_In_bool in Hin; congruence)]; tauto.
+  Qed.
+End FlagsSpec.
+
+(* ================================================================ proper subtypes *)
+Definition pfrag (p : proper) : bool :=
+  match p with PTypedArray _ _ | PVoidUndefined _ _ => false | _ => proper_frag p end.
+(* the points a value can be: one point per unit tag, structured points only for the structural tags *)
+Definition valid_point (pt : point) : bool :=
+  match pt with
+  | PtUnit t => match t with TgNull | TgOptionalProp | TgBigInt | TgDate | TgVoidUndefined => true | _ => false end
+  | PtStruct t _ => match t with TgMapping | TgList | TgMap | TgSet => true | _ => false end
+  | _ => true
+  end.
+Definition sub_ok (tau : stag) (s : subtype) : Prop :=
+  match s with
+  | SFalse t | STrue t => t = tau
+  | SProper p => proper_tag p = tau /\ pfrag p = true
+  end.
+
+Lemma pmem_tag p pt : pmem p pt = true -> proper_tag p = point_tag pt.
+Proof. destruct p, pt; cbn; try discriminate; try reflexivity; destruct t; try discriminate; reflexivity. Qed.
+
+Lemma smem_lit_num a v z : smem (lit_subtype PNumber TgNumber a v) (PtNum z) = lits_mem numval_eqb a v (NLit z).
+Proof. destruct v as [|x v]; [destruct a; reflexivity|reflexivity]. Qed.
+Lemma smem_lit_str a v s : smem (lit_subtype PString TgString a v) (PtStr s) = lits_mem strval_eqb a v (lit_str s).
+Proof. destruct v as [|x v]; [destruct a; reflexivity|reflexivity]. Qed.
+Lemma sub_ok_lit_num a v : forallb numval_lit v = true -> sub_ok TgNumber (lit_subtype PNumber TgNumber a v).
+Proof. destruct v as [|x v]; [destruct a; reflexivity|]. intros H. cbn [lit_subtype sub_ok proper_tag pfrag proper_frag]. rewrite H. auto. Qed.
+Lemma sub_ok_lit_str a v : forallb strval_lit v = true -> sub_ok TgString (lit_subtype PString TgString a v).
+Proof. destruct v as [|x v]; [destruct a; reflexivity|]. intros H. cbn [lit_subtype sub_ok proper_tag pfrag proper_frag]. rewrite H. auto. Qed.
+
+Lemma pfrag_num a v : pfrag (PNumber a v) = true -> forallb numval_lit v = true.
+Proof. cbn. intros H. apply andb_prop in H as [H _]. exact H. Qed.
+Lemma pfrag_str a v : pfrag (PString a v) = true -> forallb strval_lit v = true.
+Proof. cbn. intros H. apply andb_prop in H as [H _]. exact H. Qed.
+
+Ltac point_cases pt Hv Ht :=
+  destruct pt as [x|z|s|k|u|u rho]; cbn in Ht; try discriminate Ht;
+  try (subst u; cbn in Hv; try discriminate Hv).
+
+Definition num_inter := lits_intersect_spec numval_eqb numval_eqb_spec numval_is_sub numval_leb numval_lit numval_is_sub_lit PNumber TgNumber.
+Definition str_inter := lits_intersect_spec strval_eqb strval_eqb_spec strval_is_sub strval_leb strval_lit strval_is_sub_lit PString TgString.
+Definition num_union := lits_union_spec numval_eqb numval_eqb_spec numval_is_sub numval_leb numval_lit numval_is_sub_lit PNumber TgNumber.
+Definition str_union := lits_union_spec strval_eqb strval_eqb_spec strval_is_sub strval_leb strval_lit strval_is_sub_lit PString TgString.
+
+Lemma bdd_res_ok o b : bdd_res o = Ok b -> o = Some b.
+Proof. destruct o; cbn; congruence. Qed.
+
+(* keep the kernel from unfolding the fuelled diagram operations when it re-checks conversions *)
+Opaque intersect union diff complement FUEL_BDD.
+
+Lemma proper_intersect_spec p1 p2 s :
+  pfrag p1 = true -> pfrag p2 = true -> proper_tag p1 = proper_tag p2 -> proper_intersect p1 p2 = Ok s ->
+  sub_ok (proper_tag p1) s /\
+  forall pt, valid_point pt = true -> point_tag pt = proper_tag p1 -> smem s pt = pmem p1 pt && pmem p2 pt.
+Proof.
+  intros F1 F2 Ht Hs.
+  destruct p1 as [b1|a1 v1|a1 v1|d1|d1|a1 v1|a1 v1|d1|d1], p2 as [b2|a2 v2|a2 v2|d2|d2|a2 v2|a2 v2|d2|d2];
+    try discriminate Ht; try discriminate F1; try discriminate F2; cbn [proper_intersect] in Hs.
+  - inversion Hs; subst s. destruct (Bool.eqb b1 b2) eqn:E.
+    + split; [split; reflexivity|]. intros pt Hv Hp. point_cases pt Hv Hp. cbn.
+      apply Bool.eqb_prop in E. subst. destruct (Bool.eqb b2 x); reflexivity.
+    + split; [reflexivity|]. intros pt Hv Hp. point_cases pt Hv Hp. cbn.
+      destruct b1, b2, x; try reflexivity; discriminate E.
+  - destruct (num_inter a1 v1 a2 v2 (pfrag_num _ _ F1) (pfrag_num _ _ F2)) as (a & v & E & Hl & Hm).
+    rewrite E in Hs. inversion Hs; subst s. split; [apply sub_ok_lit_num; exact Hl|].
+    intros pt Hv Hp. point_cases pt Hv Hp. rewrite smem_lit_num. apply Hm.
+  - destruct (str_inter a1 v1 a2 v2 (pfrag_str _ _ F1) (pfrag_str _ _ F2)) as (a & v & E & Hl & Hm).
+    rewrite E in Hs. inversion Hs; subst s. split; [apply sub_ok_lit_str; exact Hl|].
+    intros pt Hv Hp. point_cases pt Hv Hp. rewrite smem_lit_str. apply Hm.
+  - destruct (bdd_res (intersect FUEL_BDD d1 d2)) as [b|e] eqn:E; cbn [bind] in Hs; [|discriminate]. inversion Hs; subst s.
+    split; [split; reflexivity|]. intros pt Hv Hp. point_cases pt Hv Hp. cbn.
+    apply (intersect_sound rho _ _ _ _ (bdd_res_ok _ _ E)).
+  - destruct (bdd_res (intersect FUEL_BDD d1 d2)) as [b|e] eqn:E; cbn [bind] in Hs; [|discriminate]. inversion Hs; subst s.
+    split; [split; reflexivity|]. intros pt Hv Hp. point_cases pt Hv Hp. cbn.
+    apply (intersect_sound rho _ _ _ _ (bdd_res_ok _ _ E)).
+  - destruct (bdd_res (intersect FUEL_BDD d1 d2)) as [b|e] eqn:E; cbn [bind] in Hs; [|discriminate]. inversion Hs; subst s.
+    split; [split; reflexivity|]. intros pt Hv Hp. point_cases pt Hv Hp. cbn.
+    apply (intersect_sound rho _ _ _ _ (bdd_res_ok _ _ E)).
+  - destruct (bdd_res (intersect FUEL_BDD d1 d2)) as [b|e] eqn:E; cbn [bind] in Hs; [|discriminate]. inversion Hs; subst s.
+    split; [split; reflexivity|]. intros pt Hv Hp. point_cases pt Hv Hp. cbn.
+    apply (intersect_sound rho _ _ _ _ (bdd_res_ok _ _ E)).
+Qed.
+
+Lemma proper_union_spec p1 p2 s :
+  pfrag p1 = true -> pfrag p2 = true -> proper_tag p1 = proper_tag p2 -> proper_union p1 p2 = Ok s ->
+  sub_ok (proper_tag p1) s /\
+  forall pt, valid_point pt = true -> point_tag pt = proper_tag p1 -> smem s pt = pmem p1 pt || pmem p2 pt.
+Proof.
+  intros F1 F2 Ht Hs.
+  destruct p1 as [b1|a1 v1|a1 v1|d1|d1|a1 v1|a1 v1|d1|d1], p2 as [b2|a2 v2|a2 v2|d2|d2|a2 v2|a2 v2|d2|d2];
+    try discriminate Ht; try discriminate F1; try discriminate F2; cbn [proper_union] in Hs.
+  - inversion Hs; subst s. destruct (Bool.eqb b1 b2) eqn:E.
+    + split; [split; reflexivity|]. intros pt Hv Hp. point_cases pt Hv Hp. cbn.
+      apply Bool.eqb_prop in E. subst. destruct (Bool.eqb b2 x); reflexivity.
+    + split; [reflexivity|]. intros pt Hv Hp. point_cases pt Hv Hp. cbn.
+      destruct b1, b2, x; try reflexivity; discriminate E.
+  - destruct (num_union a1 v1 a2 v2 (pfrag_num _ _ F1) (pfrag_num _ _ F2)) as (a & v & E & Hl & Hm).
+    rewrite E in Hs. inversion Hs; subst s. split; [apply sub_ok_lit_num; exact Hl|].
+    intros pt Hv Hp. point_cases pt Hv Hp. rewrite smem_lit_num. apply Hm.
+  - destruct (str_union a1 v1 a2 v2 (pfrag_str _ _ F1) (pfrag_str _ _ F2)) as (a & v & E & Hl & Hm).
+    rewrite E in Hs. inversion Hs; subst s. split; [apply sub_ok_lit_str; exact Hl|].
+    intros pt Hv Hp. point_cases pt Hv Hp. rewrite smem_lit_str. apply Hm.
+  - destruct (bdd_res (union FUEL_BDD d1 d2)) as [b|e] eqn:E; cbn [bind] in Hs; [|discriminate]. inversion Hs; subst s.
+    split; [split; reflexivity|]. intros pt Hv Hp. point_cases pt Hv Hp. cbn.
+    apply (union_sound rho _ _ _ _ (bdd_res_ok _ _ E)).
+  - destruct (bdd_res (union FUEL_BDD d1 d2)) as [b|e] eqn:E; cbn [bind] in Hs; [|discriminate]. inversion Hs; subst s.
+    split; [split; reflexivity|]. intros pt Hv Hp. point_cases pt Hv Hp. cbn.
+    apply (union_sound rho _ _ _ _ (bdd_res_ok _ _ E)).
+  - destruct (bdd_res (union FUEL_BDD d1 d2)) as [b|e] eqn:E; cbn [bind] in Hs; [|discriminate]. inversion Hs; subst s.
+    split; [split; reflexivity|]. intros pt Hv Hp. point_cases pt Hv Hp. cbn.
+    apply (union_sound rho _ _ _ _ (bdd_res_ok _ _ E)).
+  - destruct (bdd_res (union FUEL_BDD d1 d2)) as [b|e] eqn:E; cbn [bind] in Hs; [|discriminate]. inversion Hs; subst s.
+    split; [split; reflexivity|]. intros pt Hv Hp. point_cases pt Hv Hp. cbn.
+    apply (union_sound rho _ _ _ _ (bdd_res_ok _ _ E)).
+Qed.
+
+Lemma proper_complement_spec p c :
+  pfrag p = true -> proper_complement p = Ok c ->
+  proper_tag c = proper_tag p /\ pfrag c = true /\
+  forall pt, valid_point pt = true -> point_tag pt = proper_tag p -> pmem c pt = negb (pmem p pt).
+Proof.
+  intros F Hc.
+  destruct p as [b1|a1 v1|a1 v1|d1|d1|a1 v1|a1 v1|d1|d1]; try discriminate F; cbn [proper_complement] in Hc.
+  - inversion Hc; subst c. repeat split. intros pt Hv Hp. point_cases pt Hv Hp. cbn. destruct b1, x; reflexivity.
+  - inversion Hc; subst c. repeat split; [exact F|]. intros pt Hv Hp. point_cases pt Hv Hp. cbn. unfold lits_mem. destruct a1; cbn; [reflexivity|rewrite negb_involutive; reflexivity].
+  - inversion Hc; subst c. repeat split; [exact F|]. intros pt Hv Hp. point_cases pt Hv Hp. cbn. unfold lits_mem. destruct a1; cbn; [reflexivity|rewrite negb_involutive; reflexivity].
+  - destruct (bdd_res (complement FUEL_BDD d1)) as [b|e] eqn:E; cbn [bind] in Hc; [|discriminate]. inversion Hc; subst c.
+    repeat split. intros pt Hv Hp. point_cases pt Hv Hp. cbn. apply (complement_sound rho _ _ _ (bdd_res_ok _ _ E)).
+  - destruct (bdd_res (complement FUEL_BDD d1)) as [b|e] eqn:E; cbn [bind] in Hc; [|discriminate]. inversion Hc; subst c.
+    repeat split. intros pt Hv Hp. point_cases pt Hv Hp. cbn. apply (complement_sound rho _ _ _ (bdd_res_ok _ _ E)).
+  - destruct (bdd_res (complement FUEL_BDD d1)) as [b|e] eqn:E; cbn [bind] in Hc; [|discriminate]. inversion Hc; subst c.
+    repeat split. intros pt Hv Hp. point_cases pt Hv Hp. cbn. apply (complement_sound rho _ _ _ (bdd_res_ok _ _ E)).
+  - destruct (bdd_res (complement FUEL_BDD d1)) as [b|e] eqn:E; cbn [bind] in Hc; [|discriminate]. inversion Hc; subst c.
+    repeat split. intros pt Hv Hp. point_cases pt Hv Hp. cbn. apply (complement_sound rho _ _ _ (bdd_res_ok _ _ E)).
+Qed.
+
+Lemma proper_diff_spec p1 p2 s :
+  pfrag p1 = true -> pfrag p2 = true -> proper_tag p1 = proper_tag p2 -> proper_diff p1 p2 = Ok s ->
+  sub_ok (proper_tag p1) s /\
+  forall pt, valid_point pt = true -> point_tag pt = proper_tag p1 -> smem s pt = pmem p1 pt && negb (pmem p2 pt).
+Proof.
+  intros F1 F2 Ht Hs.
+  assert (Gen : (do c <- proper_complement p2; proper_intersect p1 c) = Ok s ->
+                sub_ok (proper_tag p1) s /\
+                forall pt, valid_point pt = true -> point_tag pt = proper_tag p1 -> smem s pt = pmem p1 pt && negb (pmem p2 pt)).
+  { intros H. destruct (proper_complement p2) as [c|e] eqn:Ec; cbn [bind] in H; [|discriminate].
+    destruct (proper_complement_spec p2 c F2 Ec) as (Tc & Fc & Mc).
+    destruct (proper_intersect_spec p1 c s F1 Fc (eq_trans Ht (eq_sym Tc)) H) as (S1 & S2).
+    split; [exact S1|]. intros pt Hv Hp. rewrite (S2 pt Hv Hp), (Mc pt Hv (eq_trans Hp Ht)). reflexivity. }
+  destruct p1 as [b1|a1 v1|a1 v1|d1|d1|a1 v1|a1 v1|d1|d1], p2 as [b2|a2 v2|a2 v2|d2|d2|a2 v2|a2 v2|d2|d2];
+    try discriminate Ht; try discriminate F1; try discriminate F2; cbn [proper_diff] in Hs; try (apply Gen; exact Hs).
+  - inversion Hs; subst s. destruct (Bool.eqb b1 b2) eqn:E.
+    + split; [reflexivity|]. intros pt Hv Hp. point_cases pt Hv Hp. cbn.
+      apply Bool.eqb_prop in E. subst. destruct (Bool.eqb b2 x); reflexivity.
+    + split; [split; reflexivity|]. intros pt Hv Hp. point_cases pt Hv Hp. cbn.
+      destruct b1, b2, x; try reflexivity; discriminate E.
+  - destruct (bdd_res (diff FUEL_BDD d1 d2)) as [b|e] eqn:E; cbn [bind] in Hs; [|discriminate]. inversion Hs; subst s.
+    split; [split; reflexivity|]. intros pt Hv Hp. point_cases pt Hv Hp. cbn.
+    apply (diff_sound rho _ _ _ _ (bdd_res_ok _ _ E)).
+  - destruct (bdd_res (diff FUEL_BDD d1 d2)) as [b|e] eqn:E; cbn [bind] in Hs; [|discriminate]. inversion Hs; subst s.
+    split; [split; reflexivity|]. intros pt Hv Hp. point_cases pt Hv Hp. cbn.
+    apply (diff_sound rho _ _ _ _ (bdd_res_ok _ _ E)).
+  - destruct (bdd_res (diff FUEL_BDD d1 d2)) as [b|e] eqn:E; cbn [bind] in Hs; [|discriminate]. inversion Hs; subst s.
+    split; [split; reflexivity|]. intros pt Hv Hp. point_cases pt Hv Hp. cbn.
+    apply (diff_sound rho _ _ _ _ (bdd_res_ok _ _ E)).
+  - destruct (bdd_res (diff FUEL_BDD d1 d2)) as [b|e] eqn:E; cbn [bind] in Hs; [|discriminate]. inversion Hs; subst s.
+    split; [split; reflexivity|]. intros pt Hv Hp. point_cases pt Hv Hp. cbn.
+    apply (diff_sound rho _ _ _ _ (bdd_res_ok _ _ E)).
+Qed.
+
+(* ================================================================ bits *)
+Lemma land_pow2 (x k : N) : N.land x (2 ^ k)%N = if N.testbit x k then (2 ^ k)%N else 0%N.
+Proof.
+  apply N.bits_inj. intros m. rewrite N.land_spec, N.pow2_bits_eqb.
+  destruct (N.eqb_spec k m) as [->|Hne].
+  - rewrite andb_true_r. destruct (N.testbit x m); [rewrite N.pow2_bits_true; reflexivity|rewrite N.bits_0; reflexivity].
+  - rewrite andb_false_r. destruct (N.testbit x k); [rewrite (N.pow2_bits_false k m Hne); reflexivity|rewrite N.bits_0; reflexivity].
+Qed.
+Lemma has_bit_testbit x g : has_bit x (stag_code g) = N.testbit x (stag_shift g).
+Proof.
+  unfold has_bit, stag_code. rewrite N.shiftl_1_l, land_pow2.
+  destruct (N.testbit x (stag_shift g)); [|reflexivity].
+  destruct (N.eqb_spec (2 ^ stag_shift g)%N 0%N) as [E|_]; [|reflexivity].
+  exfalso. revert E. apply N.pow_nonzero. discriminate.
+Qed.
+Lemma shift_lt_32 g : (stag_shift g < 32)%N.
+Proof. destruct g; reflexivity. Qed.
+Lemma has_bit_lor a b g : has_bit (N.lor a b) (stag_code g) = has_bit a (stag_code g) || has_bit b (stag_code g).
+Proof. rewrite !has_bit_testbit. apply N.lor_spec. Qed.
+Lemma has_bit_land a b g : has_bit (N.land a b) (stag_code g) = has_bit a (stag_code g) && has_bit b (stag_code g).
+Proof. rewrite !has_bit_testbit. apply N.land_spec. Qed.
+Lemma has_bit_not a g : has_bit (not_bits a) (stag_code g) = negb (has_bit a (stag_code g)).
+Proof.
+  unfold not_bits. rewrite !has_bit_testbit, N.lxor_spec, (N.ones_spec_low 32 _ (shift_lt_32 g)).
+  destruct (N.testbit a (stag_shift g)); reflexivity.
+Qed.
+Lemma has_bit_code g h : has_bit (stag_code g) (stag_code h) = stag_eqb g h.
+Proof. destruct g, h; reflexivity. Qed.
+Lemma has_bit_0 g : has_bit 0%N (stag_code g) = false.
+Proof. destruct g; reflexivity. Qed.
+Lemma stag_eqb_eq g h : stag_eqb g h = true <-> g = h.
+Proof. destruct g, h; cbn; split; try discriminate; try reflexivity; intros; reflexivity. Qed.
+Lemma stag_eqb_refl g : stag_eqb g g = true.
+Proof. destruct g; reflexivity. Qed.
+Lemma stag_eqb_sym g h : stag_eqb g h = stag_eqb h g.
+Proof. destruct g, h; reflexivity. Qed.
+
+Lemma some_bits_acc l acc g :
+  has_bit (fold_left (fun a p => N.lor a (proper_code p)) l acc) (stag_code g)
+  = has_bit acc (stag_code g) || existsb (fun p => stag_eqb (proper_tag p) g) l.
+Proof.
+  revert acc. induction l as [|p l IH]; intros acc; cbn [fold_left existsb]; [rewrite orb_false_r; reflexivity|].
+  rewrite IH. unfold proper_code. rewrite has_bit_lor, has_bit_code. rewrite orb_assoc. reflexivity.
+Qed.
+Lemma has_bit_some_bits l g : has_bit (some_bits l) (stag_code g) = existsb (fun p => stag_eqb (proper_tag p) g) l.
+Proof. unfold some_bits. rewrite some_bits_acc, has_bit_0. reflexivity. Qed.
+
+(* ================================================================ the merge of two tag-sorted vectors *)
+Lemma pi_nil_nil bits : pair_iter bits [] [] = [].
+Proof. reflexivity. Qed.
+Lemma pi_nil_cons bits d2 l2 :
+  pair_iter bits [] (d2 :: l2) = if has_bit bits (proper_code d2) then (None, Some d2) :: pair_iter bits [] l2 else pair_iter bits [] l2.
+Proof. reflexivity. Qed.
+Lemma pi_cons_nil bits d1 l1 :
+  pair_iter bits (d1 :: l1) [] = if has_bit bits (proper_code d1) then (Some d1, None) :: pair_iter bits l1 [] else pair_iter bits l1 [].
+Proof. reflexivity. Qed.
+Lemma pi_cons_cons bits d1 l1 d2 l2 :
+  pair_iter bits (d1 :: l1) (d2 :: l2) =
+  match N.compare (proper_code d1) (proper_code d2) with
+  | Eq => if has_bit bits (proper_code d1) then (Some d1, Some d2) :: pair_iter bits l1 l2 else pair_iter bits l1 l2
+  | Lt => if has_bit bits (proper_code d1) then (Some d1, None) :: pair_iter bits l1 (d2 :: l2) else pair_iter bits l1 (d2 :: l2)
+  | Gt => if has_bit bits (proper_code d2) then (None, Some d2) :: pair_iter bits (d1 :: l1) l2 else pair_iter bits (d1 :: l1) l2
+  end.
+Proof. reflexivity. Qed.
+
+Section Merge.
+  Variable tau : stag.
+  Variable bits : N.
+  Variable g : option proper * option proper -> bool.
+  Definition has_tau (p : proper) : bool := stag_eqb (proper_tag p) tau.
+  Definition lk (l : list proper) : option proper := find has_tau l.
+  (* pairs that do not concern the tag tau contribute nothing *)
+  Hypothesis g_local : forall o1 o2,
+      (forall p, o1 = Some p -> has_tau p = false) -> (forall p, o2 = Some p -> has_tau p = false) -> g (o1, o2) = false.
+
+  Lemma code_eq_tag p q : proper_code p = proper_code q -> proper_tag p = proper_tag q.
+  Proof. unfold proper_code. destruct (proper_tag p), (proper_tag q); cbn; intros H; try reflexivity; discriminate H. Qed.
+  Lemma code_lt_tag p q : (proper_code p < proper_code q)%N -> has_tau p = true -> has_tau q = false.
+  Proof.
+    unfold has_tau, proper_code. intros Hlt Hp. apply stag_eqb_eq in Hp. rewrite Hp in Hlt.
+    destruct (stag_eqb (proper_tag q) tau) eqn:E; [|reflexivity]. apply stag_eqb_eq in E. rewrite E in Hlt.
+    exfalso. revert Hlt. apply N.lt_irrefl.
+  Qed.
+
+  Lemma inc_cons p l : codes_increasing (p :: l) = true ->
+    (forall q, In q l -> (proper_code p < proper_code q)%N) /\ codes_increasing l = true.
+  Proof.
+    cbn [codes_increasing]. intros H. apply andb_prop in H as [H1 H2]. split; [|exact H2].
+    intros q Hq. rewrite forallb_forall in H1. apply N.ltb_lt. apply H1. exact Hq.
+  Qed.
+  (* every element of l lies above a proper of tag tau (or above something above it): tau does not occur in l *)
+  Lemma lk_none_above p l : has_tau p = true -> (forall q, In q l -> (proper_code p < proper_code q)%N) -> lk l = None.
+  Proof.
+    intros Hp Hl. unfold lk. induction l as [|q l IH]; [reflexivity|]. cbn [find].
+    rewrite (code_lt_tag p q (Hl q (or_introl eq_refl)) Hp). apply IH. intros r Hr. apply Hl. right. exact Hr.
+  Qed.
+  Lemma lk_none_above2 p p0 l : has_tau p = true -> (proper_code p < proper_code p0)%N ->
+    (forall q, In q l -> (proper_code p0 < proper_code q)%N) -> lk (p0 :: l) = None.
+  Proof.
+    intros Hp Hlt Hl. unfold lk. cbn [find]. rewrite (code_lt_tag p p0 Hlt Hp).
+    apply (lk_none_above p l Hp). intros q Hq. eapply N.lt_trans; [exact Hlt|apply Hl; exact Hq].
+  Qed.
+
+  Notation G o1 o2 := (g (o1, o2)).
+  Lemma g_none : G None None = false.
+  Proof. apply g_local; intros p H; discriminate H. Qed.
+  Lemma g_other_l p o2 : has_tau p = false -> (forall q, o2 = Some q -> has_tau q = false) -> G (Some p) o2 = false.
+  Proof. intros H1 H2. apply g_local; [intros q E; inversion E; subst; exact H1|exact H2]. Qed.
+
+  Lemma merge_nil l2 : codes_increasing l2 = true ->
+    existsb g (pair_iter bits [] l2) = has_bit bits (stag_code tau) && G None (lk l2).
+  Proof.
+    induction l2 as [|d2 l2 IH]; intros Hinc.
+    - rewrite pi_nil_nil. cbn. rewrite g_none, andb_false_r. reflexivity.
+    - destruct (inc_cons _ _ Hinc) as [Hab Hinc']. rewrite pi_nil_cons. unfold lk. cbn [find]. fold (lk l2).
+      destruct (has_tau d2) eqn:Ed.
+      + assert (Hc : proper_code d2 = stag_code tau) by (unfold proper_code; apply stag_eqb_eq in Ed; rewrite Ed; reflexivity).
+        rewrite Hc. destruct (has_bit bits (stag_code tau)); cbn [existsb andb].
+        * rewrite (IH Hinc'), (lk_none_above d2 l2 Ed Hab), g_none, andb_false_r, orb_false_r. reflexivity.
+        * rewrite (IH Hinc'). reflexivity.
+      + assert (Hg : G None (Some d2) = false) by (apply g_local; [intros p E; discriminate E|intros p E; inversion E; subst; exact Ed]).
+        destruct (has_bit bits (proper_code d2)); cbn [existsb]; rewrite ?Hg; apply (IH Hinc').
+  Qed.
+
+  Lemma merge_nil_r l1 : codes_increasing l1 = true ->
+    existsb g (pair_iter bits l1 []) = has_bit bits (stag_code tau) && G (lk l1) None.
+  Proof.
+    induction l1 as [|d1 l1 IH]; intros Hinc.
+    - rewrite pi_nil_nil. cbn. rewrite g_none, andb_false_r. reflexivity.
+    - destruct (inc_cons _ _ Hinc) as [Hab Hinc']. rewrite pi_cons_nil. unfold lk. cbn [find]. fold (lk l1).
+      destruct (has_tau d1) eqn:Ed.
+      + assert (Hc : proper_code d1 = stag_code tau) by (unfold proper_code; apply stag_eqb_eq in Ed; rewrite Ed; reflexivity).
+        rewrite Hc. destruct (has_bit bits (stag_code tau)); cbn [existsb andb].
+        * rewrite (IH Hinc'), (lk_none_above d1 l1 Ed Hab), g_none, andb_false_r, orb_false_r. reflexivity.
+        * rewrite (IH Hinc'). reflexivity.
+      + assert (Hg : G (Some d1) None = false) by (apply g_other_l; [exact Ed|intros q E; discriminate E]).
+        destruct (has_bit bits (proper_code d1)); cbn [existsb]; rewrite ?Hg; apply (IH Hinc').
+  Qed.
+
+  Lemma merge_spec l1 : forall l2, codes_increasing l1 = true -> codes_increasing l2 = true ->
+    existsb g (pair_iter bits l1 l2) = has_bit bits (stag_code tau) && G (lk l1) (lk l2).
+  Proof.
+    induction l1 as [|d1 l1 IH1]; intros l2 H1 H2; [apply merge_nil; exact H2|].
+    destruct (inc_cons _ _ H1) as [Hab1 Hinc1].
+    induction l2 as [|d2 l2 IH2]; [apply merge_nil_r; exact H1|].
+    destruct (inc_cons _ _ H2) as [Hab2 Hinc2].
+    rewrite pi_cons_cons.
+    destruct (N.compare_spec (proper_code d1) (proper_code d2)) as [Heq|Hlt|Hgt].
+    - (* same tag *)
+      pose proof (code_eq_tag _ _ Heq) as Htag.
+      assert (Hsame : has_tau d2 = has_tau d1) by (unfold has_tau; rewrite Htag; reflexivity).
+      unfold lk. cbn [find]. fold (lk l1) (lk l2). rewrite Hsame.
+      destruct (has_tau d1) eqn:Ed.
+      + assert (Hc : proper_code d1 = stag_code tau) by (unfold proper_code; apply stag_eqb_eq in Ed; rewrite Ed; reflexivity).
+        rewrite Hc.
+        assert (L1 : lk l1 = None) by (apply (lk_none_above d1); [exact Ed|exact Hab1]).
+        assert (L2 : lk l2 = None) by (apply (lk_none_above d2); [exact Hsame|exact Hab2]).
+        destruct (has_bit bits (stag_code tau)); cbn [existsb andb]; rewrite (IH1 l2 Hinc1 Hinc2), L1, L2, g_none, andb_false_r, ?orb_false_r; reflexivity.
+      + assert (Hg : G (Some d1) (Some d2) = false).
+        { apply g_other_l; [exact Ed|]. intros q E. inversion E; subst. exact Hsame. }
+        destruct (has_bit bits (proper_code d1)); cbn [existsb]; rewrite ?Hg; apply (IH1 l2 Hinc1 Hinc2).
+    - (* d1 comes first *)
+      unfold lk at 1. cbn [find]. fold (lk l1).
+      destruct (has_tau d1) eqn:Ed.
+      + assert (Hc : proper_code d1 = stag_code tau) by (unfold proper_code; apply stag_eqb_eq in Ed; rewrite Ed; reflexivity).
+        rewrite Hc.
+        assert (L1 : lk l1 = None) by (apply (lk_none_above d1); assumption).
+        assert (L2 : lk (d2 :: l2) = None) by (apply (lk_none_above2 d1); assumption).
+        destruct (has_bit bits (stag_code tau)); cbn [existsb andb]; rewrite (IH1 (d2 :: l2) Hinc1 H2), L1, L2, g_none, andb_false_r, ?orb_false_r; reflexivity.
+      + assert (Hg : G (Some d1) None = false) by (apply g_other_l; [exact Ed|intros q E; discriminate E]).
+        destruct (has_bit bits (proper_code d1)); cbn [existsb]; rewrite ?Hg; apply (IH1 (d2 :: l2) Hinc1 H2).
+    - (* d2 comes first *)
+      unfold lk at 2. cbn [find]. fold (lk l2).
+      destruct (has_tau d2) eqn:Ed.
+      + assert (Hc : proper_code d2 = stag_code tau) by (unfold proper_code; apply stag_eqb_eq in Ed; rewrite Ed; reflexivity).
+        rewrite Hc.
+        assert (L2 : lk l2 = None) by (apply (lk_none_above d2); assumption).
+        assert (L1 : lk (d1 :: l1) = None) by (apply (lk_none_above2 d2); assumption).
+        destruct (has_bit bits (stag_code tau)); cbn [existsb andb]; rewrite (IH2 Hinc2), L1, L2, g_none, andb_false_r, ?orb_false_r; reflexivity.
+      + assert (Hg : G None (Some d2) = false) by (apply g_local; [intros p E; discriminate E|intros p E; inversion E; subst; exact Ed]).
+        destruct (has_bit bits (proper_code d2)); cbn [existsb]; rewrite ?Hg; apply (IH2 Hinc2).
+  Qed.
+End Merge.
+
+(* ================================================================ collecting the per-tag results *)
+Definition contrib (add_true : bool) (o : res (option subtype)) (pt : point) : bool :=
+  match o with
+  | Ok (Some (STrue t)) => add_true && stag_eqb t (point_tag pt)
+  | Ok (Some (SProper p)) => pmem p pt
+  | _ => false
+  end.
+
+Definition collect_step (f : option proper * option proper -> res (option subtype)) (add_true : bool)
+           (acc : res (N * list proper)) (pr : option proper * option proper) : res (N * list proper) :=
+  do st <- acc;
+  do o <- f pr;
+  match o with
+  | Some (STrue t) => Ok (if add_true then (N.lor (fst st) (stag_code t), snd st) else st)
+  | Some (SProper p) => Ok (fst st, snd st ++ [p])
+  | _ => Ok st
+  end.
+
+Lemma fold_throw f add_true ps e : fold_left (collect_step f add_true) ps (Throw e) = Throw e.
+Proof. induction ps as [|p ps IH]; [reflexivity|exact IH]. Qed.
+
+Lemma collect_fold f add_true pt ps : forall a0 d0 a d,
+  fold_left (collect_step f add_true) ps (Ok (a0, d0)) = Ok (a, d) ->
+  has_bit a (stag_code (point_tag pt)) || existsb (fun p => pmem p pt) d
+  = (has_bit a0 (stag_code (point_tag pt)) || existsb (fun p => pmem p pt) d0)
+    || existsb (fun pr => contrib add_true (f pr) pt) ps.
+Proof.
+  induction ps as [|pr ps IH]; intros a0 d0 a d H; cbn [fold_left existsb] in *.
+  - inversion H; subst. rewrite orb_false_r. reflexivity.
+  - unfold collect_step at 2 in H. cbn [bind] in H.
+    destruct (f pr) as [[[g|g|p]|]|e] eqn:Ef; cbn [bind fst snd] in H; try (rewrite fold_throw in H; discriminate H).
+    + rewrite (IH _ _ _ _ H). cbn [contrib]. rewrite orb_false_l. reflexivity.
+    + destruct add_true.
+      * rewrite (IH _ _ _ _ H). cbn [contrib andb]. rewrite has_bit_lor, has_bit_code.
+        destruct (has_bit a0 _), (existsb _ d0), (stag_eqb g _), (existsb _ ps); reflexivity.
+      * rewrite (IH _ _ _ _ H). cbn [contrib andb]. rewrite orb_false_l. reflexivity.
+    + rewrite (IH _ _ _ _ H). cbn [contrib]. rewrite existsb_app. cbn [existsb]. rewrite orb_false_r.
+      destruct (has_bit a0 _), (existsb _ d0), (pmem p pt), (existsb _ ps); reflexivity.
+    + rewrite (IH _ _ _ _ H). cbn [contrib]. rewrite orb_false_l. reflexivity.
+Qed.
+
+Lemma collect_mem ps f all0 add_true t pt :
+  sem_collect ps f all0 add_true = Ok t ->
+  mem t pt = has_bit all0 (stag_code (point_tag pt)) || existsb (fun pr => contrib add_true (f pr) pt) ps.
+Proof.
+  unfold sem_collect. intros H.
+  change (fold_left _ ps (Ok (all0, []))) with (fold_left (collect_step f add_true) ps (Ok (all0, []))) in H.
+  destruct (fold_left (collect_step f add_true) ps (Ok (all0, []))) as [[a d]|e] eqn:E; cbn [bind] in H; [|discriminate].
+  inversion H; subst t. unfold mem. cbn [st_all st_data fst snd].
+  rewrite (collect_fold f add_true pt ps _ _ _ _ E). cbn [existsb]. rewrite orb_false_r. reflexivity.
+Qed.
+
+(* ================================================================ tags of results, for arbitrary proper subtypes *)
+Definition subtype_tag (s : subtype) : stag := match s with SFalse t | STrue t => t | SProper p => proper_tag p end.
+
+Lemma lit_subtype_tag {K} (mk : bool -> list K -> proper) t a v :
+  (forall a' v', proper_tag (mk a' v') = t) -> subtype_tag (lit_subtype mk t a v) = t.
+Proof. intros H. destruct v; [destruct a; reflexivity|apply H]. Qed.
+
+Lemma lits_intersect_tag {K} is_sub eqb leb (mk : bool -> list K -> proper) t a1 v1 a2 v2 s :
+  (forall a' v', proper_tag (mk a' v') = t) -> lits_intersect is_sub eqb leb mk t a1 v1 a2 v2 = Ok s -> subtype_tag s = t.
+Proof.
+  intros Hmk. unfold lits_intersect. destruct a1, a2;
+    match goal with |- (do v <- ?X; _) = _ -> _ => destruct X; cbn [bind]; [|discriminate] end;
+    intros H; inversion H; apply lit_subtype_tag; exact Hmk.
+Qed.
+Lemma lits_union_tag {K} is_sub eqb leb (mk : bool -> list K -> proper) t a1 v1 a2 v2 s :
+  (forall a' v', proper_tag (mk a' v') = t) -> lits_union is_sub eqb leb mk t a1 v1 a2 v2 = Ok s -> subtype_tag s = t.
+Proof.
+  intros Hmk. unfold lits_union. destruct a1, a2;
+    match goal with |- (do v <- ?X; _) = _ -> _ => destruct X; cbn [bind]; [|discriminate] end;
+    intros H; inversion H; apply lit_subtype_tag; exact Hmk.
+Qed.
+
+Ltac struct_tag H :=
+  match type of H with (do b <- ?X; _) = _ => destruct X; cbn [bind] in H; [|discriminate H]; inversion H; split; reflexivity end.
+
+Lemma proper_intersect_tag p1 p2 s : proper_intersect p1 p2 = Ok s -> subtype_tag s = proper_tag p1 /\ proper_tag p2 = proper_tag p1.
+Proof.
+  destruct p1, p2; cbn [proper_intersect]; intros H; try discriminate H; try (struct_tag H).
+  - inversion H. destruct (Bool.eqb b b0); split; reflexivity.
+  - split; [|reflexivity]. eapply lits_intersect_tag; [|exact H]. reflexivity.
+  - split; [|reflexivity]. eapply lits_intersect_tag; [|exact H]. reflexivity.
+  - split; [|reflexivity]. eapply lits_intersect_tag; [|exact H]. reflexivity.
+  - split; [|reflexivity]. eapply lits_intersect_tag; [|exact H]. reflexivity.
+Qed.
+Lemma proper_union_tag p1 p2 s : proper_union p1 p2 = Ok s -> subtype_tag s = proper_tag p1 /\ proper_tag p2 = proper_tag p1.
+Proof.
+  destruct p1, p2; cbn [proper_union]; intros H; try discriminate H; try (struct_tag H).
+  - inversion H. destruct (Bool.eqb b b0); split; reflexivity.
+  - split; [|reflexivity]. eapply lits_union_tag; [|exact H]. reflexivity.
+  - split; [|reflexivity]. eapply lits_union_tag; [|exact H]. reflexivity.
+  - split; [|reflexivity]. eapply lits_union_tag; [|exact H]. reflexivity.
+  - split; [|reflexivity]. eapply lits_union_tag; [|exact H]. reflexivity.
+Qed.
+Lemma proper_complement_tag p c : proper_complement p = Ok c -> proper_tag c = proper_tag p.
+Proof.
+  destruct p; cbn [proper_complement]; intros H; try (inversion H; reflexivity);
+    match type of H with (do b <- ?X; _) = _ => destruct X; cbn [bind] in H; [|discriminate H]; inversion H; reflexivity end.
+Qed.
+Lemma proper_diff_tag p1 p2 s : proper_diff p1 p2 = Ok s -> subtype_tag s = proper_tag p1 /\ proper_tag p2 = proper_tag p1.
+Proof.
+  assert (Gen : (do c <- proper_complement p2; proper_intersect p1 c) = Ok s -> subtype_tag s = proper_tag p1 /\ proper_tag p2 = proper_tag p1).
+  { intros H. destruct (proper_complement p2) as [c|] eqn:Ec; cbn [bind] in H; [|discriminate].
+    destruct (proper_intersect_tag _ _ _ H) as [A B]. split; [exact A|]. rewrite <- (proper_complement_tag _ _ Ec). exact B. }
+  destruct p1, p2; cbn [proper_diff]; intros H; try (apply Gen; exact H); try (struct_tag H).
+  inversion H. destruct (Bool.eqb b b0); split; reflexivity.
+Qed.
+
+Lemma smem_other_tag s pt : subtype_tag s <> point_tag pt -> smem s pt = false.
+Proof.
+  destruct s as [t|t|p]; cbn [smem subtype_tag]; intros H; [reflexivity| |].
+  - destruct (stag_eqb t (point_tag pt)) eqn:E; [apply stag_eqb_eq in E; contradiction|reflexivity].
+  - destruct (pmem p pt) eqn:E; [apply pmem_tag in E; contradiction|reflexivity].
+Qed.
+Lemma contrib_smem o s pt : o = Ok (Some s) -> contrib true o pt = smem s pt.
+Proof. intros ->. destruct s; reflexivity. Qed.
+
+(* ================================================================ semantic types *)
+Definition wf2 (t : semtype) : bool :=
+  codes_increasing (st_data t) && forallb pfrag (st_data t)
+  && forallb (fun p => negb (has_bit (st_all t) (proper_code p))) (st_data t).
+
+Lemma has_tau_code tau p : has_tau tau p = true -> proper_code p = stag_code tau.
+Proof. unfold has_tau, proper_code. intros H. apply stag_eqb_eq in H. rewrite H. reflexivity. Qed.
+Lemma pmem_has_tau p pt : pmem p pt = true -> has_tau (point_tag pt) p = true.
+Proof. intros H. unfold has_tau. rewrite (pmem_tag _ _ H). apply stag_eqb_refl. Qed.
+Lemma lk_some tau l p : lk tau l = Some p -> In p l /\ has_tau tau p = true.
+Proof. unfold lk. intros H. apply find_some in H. exact H. Qed.
+
+Lemma existsb_pmem_lk pt l :
+  codes_increasing l = true ->
+  existsb (fun p => pmem p pt) l = match lk (point_tag pt) l with Some p => pmem p pt | None => false end.
+Proof.
+  induction l as [|p l IH]; intros Hinc; [reflexivity|].
+  destruct (inc_cons _ _ Hinc) as [Hab Hinc']. cbn [existsb]. unfold lk. cbn [find]. fold (lk (point_tag pt) l).
+  destruct (has_tau (point_tag pt) p) eqn:E.
+  - assert (R : existsb (fun q => pmem q pt) l = false).
+    { rewrite (IH Hinc'). rewrite (lk_none_above (point_tag pt) p l E Hab). reflexivity. }
+    rewrite R, orb_false_r. reflexivity.
+  - destruct (pmem p pt) eqn:Ep; [apply pmem_has_tau in Ep; congruence|]. cbn [orb]. apply IH. exact Hinc'.
+Qed.
+
+Lemma mem_lookup t pt : wf2 t = true ->
+  mem t pt = has_bit (st_all t) (stag_code (point_tag pt))
+             || match lk (point_tag pt) (st_data t) with Some p => pmem p pt | None => false end.
+Proof.
+  unfold wf2. intros H. apply andb_prop in H as [H _]. apply andb_prop in H as [H _].
+  unfold mem. rewrite (existsb_pmem_lk pt _ H). reflexivity.
+Qed.
+
+Lemma some_bits_lk tau l : has_bit (some_bits l) (stag_code tau) = match lk tau l with Some _ => true | None => false end.
+Proof.
+  rewrite has_bit_some_bits. unfold lk. induction l as [|p l IH]; [reflexivity|]. cbn [existsb find]. fold (has_tau tau p).
+  destruct (has_tau tau p); [reflexivity|exact IH].
+Qed.
+
+(* facts a well-formed type gives about the proper found for a tag *)
+Lemma wf2_lk t tau p : wf2 t = true -> lk tau (st_data t) = Some p ->
+  pfrag p = true /\ proper_tag p = tau /\ has_bit (st_all t) (stag_code tau) = false.
+Proof.
+  unfold wf2. intros H Hl. apply andb_prop in H as [H H3]. apply andb_prop in H as [_ H2].
+  destruct (lk_some _ _ _ Hl) as [Hin Ht].
+  rewrite forallb_forall in H2, H3. repeat split.
+  - apply H2. exact Hin.
+  - apply stag_eqb_eq. exact Ht.
+  - specialize (H3 p Hin). rewrite (has_tau_code _ _ Ht) in H3. apply negb_true_iff in H3. exact H3.
+Qed.
